@@ -102,9 +102,9 @@ def build(d, symbolic=False, hooks=None):
       return tuple(build(x, symbolic, hooks) for x in d['$t'])
     if '$q' in d:
       return classes.Opaque(d['$q'])
-    if '$fn' in d:
+    if '$functor' in d:
       # a functor bound with 1..2 positional arguments (its other arguments stay at their defaults, unspecified)
-      args = d['$fn']
+      args = d['$functor']
       if not isinstance(args, list) or not 1 <= len(args) <= 2:
         raise core.InvalidCase(d)
       return classes.Fab(*[build(x, symbolic, hooks) for x in args])
@@ -179,7 +179,7 @@ def vdesc(max_leaves=10, keys=None, objects=True, tuples=False, opaque=False,
         st.sampled_from([{'$o': 'SD', 'a': {}}, {'$o': 'SD', 'a': {'x': [1, 2], 'y': {'$o': 'P', 'a': {'x': 1}}}}]),
     ))
   if functors:
-    leaves.append(st.sampled_from([{'$fn': [1]}, {'$fn': [[1, 2]]}, {'$fn': [1, 5]}, {'$fn': [{'$d': [['k', 1]]}, [3]]}]))
+    leaves.append(st.sampled_from([{'$functor': [1]}, {'$functor': [[1, 2]]}, {'$functor': [1, 5]}, {'$functor': [{'$d': [['k', 1]]}, [3]]}]))
   leaf = st.one_of(*leaves)
 
   def ext(c):
